@@ -73,6 +73,14 @@ def tasks(tier):
     out += nest_tasks(Q4, "delay-reentrant", ["ok", "x:T", "x:R+ra", "r:T"],
                       strat_menu=[1, 9, "nan"], strat_free=True, deadline=6,
                       strat={"default": "ctx", "per": {"T": "legacy"}})
+    # the same exception object comes back with a different class / hint; objects configured by
+    # attribute assignment after construction
+    for tb, e in itertools.product(TABLES[1:3], Q4 + ["RetrySet.call", "AsyncRetrySet.execute",
+                                                     "RetryPolicySet.execute"]):
+        cfg = dict(M=4, strat=tb, deadline=6, alphabet=["ok", "x:T", "x:R@", "x:T@", "x:U@"],
+                   durs=[0, 1], strat_menu=[1, 9], strat_free=True, max_unknown=None,
+                   sleeper="policy" if "Set" in e else "call")
+        out.append({"family": "delay-same-object", "cfg": cfg, "entry": e, "bound": 1, "weight": 3})
     # time passes inside the sleep handler; an attempt timeout is configured
     for tb, at, e in itertools.product(TABLES[:2] + TABLES[4:], [None, 2], Q4):
         cfg = dict(M=3, strat=tb, deadline=6, alphabet=["ok", "x:T", "x:R+ra", "r:T"],
